@@ -136,13 +136,15 @@ def seq_fn(case, wit):
                 "tick %r price %r sides submitted to one market in the order %s -> accepted %r" % (tick, p, ["buy" if b else "sell" for b in order], got))
         if abs(fa - fp) >= ft + slack:
             raise Violation("C19.too_far", "an off-grid price was moved by a tick or more", "tick %r price %r -> %r" % (tick, p, got))
+        if (exact and (fa / ft).denominator != 1) or (not exact and a != round(fa / ft) * tick):
+            raise Violation("C19.off_grid_result", "the accepted price is not a multiple of the tick size", "tick %r price %r -> %r" % (tick, p, got))
     wit.inc("same_price_both_sides_one_market")
     return (tick, order)
 
 
 def shared_cases(tier):
     for tick, exact in [(t, True) for t in EXACT_TICKS] + [(t, False) for t in DEC_TICKS]:
-        for direction in ("ascending", "descending", "sides_swapped"):
+        for direction in ("ascending", "descending", "sides_swapped", "rewritten_before_acceptance"):
             yield (tick, exact, direction)
         # the market is set up with another tick size; its public tick_size attribute is then assigned the new one
         # (a tick-size reform by an event, a subclass computing its tick after setup) before the domain is submitted
@@ -176,7 +178,17 @@ def shared_fn(case, wit):
         m._is_running = False
     for i, p in enumerate(ps):
         for is_buy in ((True, False) if direction != "sides_swapped" else (False, True)):
-            o = Order(0, 0, is_buy, LIMIT_ORDER, 1, price=p)
+            if direction == "rewritten_before_acceptance":
+                # the order object is built as something else and rewritten before it reaches the market, the way the
+                # built-in events do it (order-mistake shock: side, kind, volume, price, ttl; price limit rule: price)
+                if i % 2 == 0:
+                    o = Order(0, 0, not is_buy, MARKET_ORDER, 3)
+                    o.is_buy, o.kind, o.volume, o.price, o.ttl = is_buy, LIMIT_ORDER, 1, p, 2
+                else:
+                    o = Order(0, 0, is_buy, LIMIT_ORDER, 1, price=tick * 7)
+                    o.price = p
+            else:
+                o = Order(0, 0, is_buy, LIMIT_ORDER, 1, price=p)
             m._add_order(o)
             a = o.price
             ft, fp, fa = F(tick), F(p), F(a)
@@ -189,6 +201,8 @@ def shared_fn(case, wit):
                 bad = ("C19.more_aggressive", "an off-grid %s price was moved %s (more aggressive)" % (("buy", "up") if is_buy else ("sell", "down")))
             elif not on and abs(fa - fp) >= ft + slack:
                 bad = ("C19.too_far", "an off-grid price was moved by a tick or more")
+            elif (exact and (fa / ft).denominator != 1) or (not exact and a != round(fa / ft) * tick):
+                bad = ("C19.off_grid_result", "the accepted price is not a multiple of the tick size")
             if bad:
                 raise Violation(bad[0], bad[1], "tick %r: submission #%d to one long-lived market, price %r %s -> accepted %r" % (
                     tick, 2 * i, p, "buy" if is_buy else "sell", a))
